@@ -132,6 +132,61 @@ func (ww *WW) RoundTrip(proofs cashu.Proofs, mintURL string) {
 	}
 }
 
+// synthProofs: a proof list as the quantifier describes it, beyond what wallets happen to produce:
+// 0..40 proofs over 1..4 keyset ids, secrets that are hex, NUT-10 JSON with quotes, unicode or
+// characters whose base64 differs between the alphabets, witnesses, DLEQ present / absent /
+// partial, amounts up to 2^63. All drawn from the decision tape (replayable, shrinkable).
+func (ww *WW) synthProofs() cashu.Proofs {
+	T := ww.T
+	n := T.Choose("syn.n", 41)
+	nk := 1 + T.Choose("syn.nk", 4)
+	ids := make([]string, nk)
+	for i := range ids {
+		ids[i] = "00" + randHex(7)
+	}
+	dleqMode := T.Choose("syn.dleq", 3) // 0 none, 1 all, 2 partial
+	ps := make(cashu.Proofs, n)
+	for i := range ps {
+		var secret string
+		switch T.Choose("syn.secret", 6) {
+		case 0:
+			secret = randHex(32)
+		case 1:
+			secret = `["P2PK",{"nonce":"` + randHex(16) + `","data":"02` + randHex(32) + `","tags":[["sigflag","SIG_ALL"],["n_sigs","2"]]}]`
+		case 2:
+			secret = "sécret-ünïcode-日本語-" + randHex(4)
+		case 3:
+			secret = `quote " backslash \ slash / tab	 <>&` + randHex(4)
+		case 4:
+			secret = "???~~~>>>" + randHex(3) + "\u00ff"
+		case 5:
+			secret = strings.Repeat("ÿ~?", 1+T.Choose("syn.rep", 40))
+		}
+		p := cashu.Proof{
+			Amount: uint64(1) << uint(T.Choose("syn.amt", 64)),
+			Id:     ids[T.Choose("syn.id", nk)],
+			Secret: secret,
+			C:      "02" + randHex(32),
+		}
+		if T.Chance("syn.wit", 1, 3) {
+			p.Witness = `{"signatures":["` + randHex(64) + `"],"note":"ü?~"}`
+		}
+		if dleqMode == 1 || (dleqMode == 2 && i%2 == 0) {
+			p.DLEQ = &cashu.DLEQProof{E: randHex(32), S: randHex(32), R: randHex(32)}
+		}
+		ps[i] = p
+	}
+	// keep the sum inside uint64 (the amount clause compares sums)
+	var sum uint64
+	for i := range ps {
+		if ps[i].Amount > ^uint64(0)-sum {
+			ps[i].Amount = 1
+		}
+		sum += ps[i].Amount
+	}
+	return ps
+}
+
 // Corrupted: the channel truncates / flips bytes; decoding and receiving must never panic.
 func (ww *WW) Corrupted(tok *OutToken) {
 	T := ww.T
@@ -240,6 +295,23 @@ func runC14(rc *RunCtx) {
 			ww.Corrupted(tok)
 		}
 	})
+	// synthetic proof lists and mint URLs (the part of the quantifier wallets never produce)
+	nsyn := 2 + T.Choose("syn.lists", 4)
+	for k := 0; k < nsyn; k++ {
+		ps := ww.synthProofs()
+		url := []string{"http://A", "https://mint.example.com/path?x=1&y=~", "http://münt.example/ü"}[T.Choose("syn.url", 3)]
+		if len(ps) == 0 {
+			// a token without proofs: building may be refused, but nothing may panic
+			ww.guarded("NewToken(empty)", "", func() { MakeToken(ps, url, false, false); MakeToken(ps, url, true, false) })
+			continue
+		}
+		if keysetsOf(ps) > 1 {
+			// V4 groups by keyset id, V3 has no restriction: both must round-trip
+			rc.S.Probe("c14_synthetic_multi_keyset")
+		}
+		ww.RoundTrip(ps, url)
+		rc.S.Probe("c14_synthetic_roundtrip")
+	}
 	// the whole wallet content as one token (multi-keyset after rotation)
 	for _, w := range ww.Wallets {
 		if n := ww.node(w); n != nil && n.W != nil {
